@@ -226,7 +226,10 @@ def run(repo: Repo, rep: Report, tier: str) -> None:
         _namedtuple_sibling(repo, rep)
     except Undecided as ex:
         rep.undecide("namedtuple_sibling", str(ex))
-
+    from ..core.report import Only as _OnlyX
+    from ..core import corpus as _corpusX
+    from . import c14 as _c14x
+    _c14x._ownership(repo, _OnlyX(rep, {"R14.8", "R14.9"}))
 
 def _dataclass_rules(repo: Repo, rep: Report) -> None:
     fi = repo.func(M_SCHEMA, "on_dataclass")
@@ -548,3 +551,6 @@ def _run_decision(fn: ast.FunctionDef, opt_var: str, opt: str, env: Dict[str, An
 _ADD15 = ' R06.2 also requires the alias renaming to apply to every field (not only to fields whose schema is generated). R06.13: the timezone pattern accepts every zone name the serializer emits (all 2879 enumerated).'
 EXPLANATION += _ADD15
 LEVEL_TEXT += _ADD15
+_ADD22 = ' Borrowed: R14.8 / R14.9 (no module-level caches shared by schema builds).'
+EXPLANATION += _ADD22
+LEVEL_TEXT += _ADD22
